@@ -162,7 +162,8 @@ CHECKS = {
              "AllowsMateInOne from ChessRules.tla and validates the answers of completed searches of a fresh engine at depths 1..4 / 2..3 "
              "(MateTrace.tla); candidates the specification does not confirm are skipped. Candidates: playouts, synthetic 'won' positions "
              "(king on the edge, mates by every kind of man incl. pawns arriving on the seventh rank) and 'lost' positions (every move "
-             "loses: ties between lost scores); the candidate filter does not use the engine's check test.",
+             "loses: ties between lost scores) and SPECIAL-MOVE mates (the mate, or the mating reply to avoid, is a castling move, an "
+             "en-passant capture, a promotion or a discovered / double check); the candidate filter does not use the engine's check test.",
         design_ref="DESIGN.md section 5, C08", note="Trusted: TLC, ChessRules.tla. Positions sampled.",
         technique="TLA+/PlusCal search spec model-checked by TLC; TLC trace validation of real search answers against the rules spec"),
 }
